@@ -11,6 +11,7 @@ from . import common
 
 
 def run(P: Program, rep: Report):
+    sf.sm.configure(P)
     rep.not_decided += ["absence of implicit exceptions outside the enumerated sources", "memory limits"]
     rep.assume("re match offsets, copy.deepcopy and dict/list semantics of CPython are correct")
 
@@ -43,7 +44,7 @@ def run(P: Program, rep: Report):
                        "pending/iterator scenarios)")
     issues, scen = sf.check_next_mark(P)
     rep.require_count("C01.R2", "_next_mark scenarios", len(scen), 12)
-    fi = P.func("splitter", "Splitter._next_mark")
+    fi = P.func("splitter", f"Splitter.{sf.sm.M_NEXT_MARK}")
     eofish = [i for i in issues if any(w in i["message"] for w in ("end of input", "End of input", "raise", "None", "analyser", "end-of-input"))]
     for s in scen:
         if not any(i["scenario"] in s for i in eofish):
@@ -103,6 +104,10 @@ def run(P: Program, rep: Report):
     common.exception_copy_safety(P, rep, "C01.R6")
 
     # ---------------------------------------------------------------- R7 write path on parsed libraries
+    rep.rule("C01.R8", "abstract run of the default parse stack (string resolution, enclosing removal) over a library holding every "
+                       "block class with unknown string values: no path raises")
+    common.parse_stack_never_raises(P, rep, "C01.R8")
+
     rep.rule("C01.R7", "abstract run of write_string (default stack) over a library holding one block of every class the "
                        "splitter / Library can produce: no path raises")
     common.write_string_never_raises(P, rep, "C01.R7")
